@@ -165,11 +165,12 @@ impl Encodable for Unsubscribe {
 /// Subscribe return code type.
 #[derive(Debug, Clone, Copy, PartialEq, Eq, Hash)]
 #[cfg_attr(feature = "arbitrary", derive(arbitrary::Arbitrary))]
+#[repr(u8)]
 pub enum SubscribeReturnCode {
-    MaxLevel0,
-    MaxLevel1,
-    MaxLevel2,
-    Failure,
+    MaxLevel0 = 0,
+    MaxLevel1 = 1,
+    MaxLevel2 = 2,
+    Failure = 0x80,
 }
 
 impl SubscribeReturnCode {
